@@ -277,9 +277,9 @@ var specs = map[string]*CheckSpec{
 	"C19": {
 		ID: "C19", Patterns: []string{apiPkg},
 		Runs: []HarnessRun{{Pkg: apiPkg, Dir: "internal/api", Mod: "ledger", Fn: "ZZ_C19", Shapes: countShapes(apiPkg, "ZZ_C19N"), Cfg: cmdCfg,
-			Desc: func(s *Session, i int) string { return fmt.Sprintf("HTTP method: arbitrary string of %d bytes", i) }, CanaryShapes: []int{3, 5}}},
+			Desc: harnessDesc(apiPkg, "ZZ_C19Desc", "request:"), CanaryShapes: []int{3, 5}}},
 		Bounds: func(tier string) map[string]any {
-			return map[string]any{"method": "every byte string of length 0..8 (symbolic bytes)", "routes": "all routes registered by v1.NewRouter and v2.NewRouter (structural check)", "outside": "chi's matcher, third-party middlewares, request bodies (irrelevant once the method is refused before routing)"}
+			return map[string]any{"method": "every byte string of length 0..8 (symbolic bytes)", "path_and_query": "4 write paths of v1/v2 x 5 query strings (none, preview, dryRun, both, mixed)", "routes": "all routes registered by v1.NewRouter and v2.NewRouter (structural check)", "outside": "chi's matcher, third-party middlewares, request bodies (irrelevant once the method is refused before routing)"}
 		},
 		Assumptions: []string{"http.ResponseWriter is a recording stub", "layer 2/3 (router structure, handler call graph) are syntactic SSA checks, not solver verdicts"},
 		Encoded:     []string{"api.ReadOnly", "libs/api.BadRequest/WriteErrorResponse"},
@@ -310,18 +310,20 @@ var specs = map[string]*CheckSpec{
 	},
 	"C10": {
 		ID: "C10", Patterns: []string{cmdPkg}, NeedHelper: true,
-		Runs:   []HarnessRun{commandRun("ZZ_C10", countShapes(cmdPkg, "ZZ_C10N"), harnessDesc(cmdPkg, "ZZ_C10Desc", "revert scenario:"), []int{0, 5})},
+		Instrument: true,
+		Runs: []HarnessRun{commandRun("ZZ_C10", countShapes(cmdPkg, "ZZ_C10N"), harnessDesc(cmdPkg, "ZZ_C10Desc", "revert scenario:"), []int{0, 5}),
+			concRun("ZZ_C10Race", "ZZ_C10RaceN", "ZZ_C10RaceDesc", "", 1, 2, false, nil, []int{0})},
 		Bounds: func(tier string) map[string]any {
-			return map[string]any{"original_transactions": "9 posting patterns (1-3 postings) x forced/unforced x with/without an intermediate spend of the delivered funds", "amounts_and_balances": "unbounded non-negative integers", "concurrency": "racing reverts are covered by the concurrent checks (C07/C11 family), not here"}
+			return map[string]any{"original_transactions": "9 posting patterns (1-3 postings) x forced/unforced x with/without an intermediate spend of the delivered funds", "amounts_and_balances": "unbounded non-negative integers", "racing_reverts": "2-3 concurrent reverts of one transaction, forced and unforced, pre-emption budget 1 (thorough 2), blocking switches deterministic"}
 		},
 		Assumptions: cmdStubs, Encoded: append([]string{"ledger.(*TransactionData).Reverse", "ledger.Postings.Reverse", "ledger.MarkReverts"}, cmdEncoded...),
 		Rule: "create the original, optionally move the funds on, revert (forced or not), revert again; postings, reverted flag, balances and log count compared symbolically",
 	},
 	"C13": {
 		ID: "C13", Patterns: []string{cmdPkg}, NeedHelper: true,
-		Runs:   []HarnessRun{commandRun("ZZ_C13", rangeShapes(7), kindDesc, []int{0, 3})},
+		Runs:   []HarnessRun{commandRun("ZZ_C13", countShapes(cmdPkg, "ZZ_C13N"), harnessDesc(cmdPkg, "ZZ_C13Desc", ""), []int{0, 3})},
 		Bounds: func(tier string) map[string]any {
-			return map[string]any{"log_kinds": "every write kind x target type the commander can emit (7)", "ids_amounts": "symbolic (transaction ids < 2^62)", "timestamps_metadata": "concrete (RFC3339Nano formatting of arbitrary instants and arbitrary Unicode metadata are outside the claim)"}
+			return map[string]any{"log_kinds": "every write kind x target type the commander can emit (7)", "ids_amounts": "symbolic (transaction ids < 2^62), plus three concrete ids above 2^53 (not representable as float64)", "timestamps_metadata": "concrete (RFC3339Nano formatting of arbitrary instants and arbitrary Unicode metadata are outside the claim)"}
 		},
 		Assumptions: cmdStubs, Encoded: append([]string{"ledger.HydrateLog", "ledger.(*ChainedLog).UnmarshalJSON", "ledger.(*SetMetadataLogPayload).UnmarshalJSON", "ledger.LogType.MarshalJSON/UnmarshalJSON", "ledger.LogTypeFromString", "ledger.Time.MarshalJSON/UnmarshalJSON"}, cmdEncoded...),
 		Rule: "each log the write path persists is encoded, decoded, re-encoded (text equality as ropes) and its hash recomputed from the round-tripped entry and the predecessor",
@@ -348,9 +350,9 @@ var specs = map[string]*CheckSpec{
 		Rule:   "single-send programs of NumGen: sum law, non-negativity, balance bookkeeping (kept parts returned), destination and source caps, ordered-source exhaustion; plus Allocate's unit law over a symbolic total for 9 portion vectors",
 	},
 	"C08": {
-		ID: "C08", Patterns: []string{vmPkg}, NeedShapes: true, NeedHelper: true,
-		Runs:   []HarnessRun{vmRun("ZZ_C08", 5)},
-		Bounds: numgenBounds, Assumptions: append([]string{"RefSem (harness zz_ast.go) is the trusted reading of the source text", "compilation cache (gcache) is bypassed"}, vmStubs...), Encoded: vmEncoded,
+		ID: "C08", Patterns: []string{vmPkg, cmdPkg}, NeedShapes: true, NeedHelper: true, Instrument: true,
+		Runs:   []HarnessRun{vmRun("ZZ_C08", 5), concRun("ZZ_C08Cache", "ZZ_C08CacheN", "ZZ_C08CacheDesc", "compilation cache:", 1, 2, false, nil, []int{0})},
+		Bounds: numgenBounds, Assumptions: append([]string{"RefSem (harness zz_ast.go) is the trusted reading of the source text", "command.Compiler.Compile is interpreted (sha256 as injective token); gcache is modelled as a bounded LFU map; two concurrent requests with different texts, cache sizes 1/2/1024, pre-emption budget 1"}, vmStubs...), Encoded: vmEncoded,
 		Rule:   "differential: real compiler (native) + real VM (symbolic) against the reference semantics; per (source,destination,asset) sums compared by the solver on every path; compile acceptance compared with the language's static rules",
 	},
 	"C12": {
